@@ -628,7 +628,7 @@ class Function(NameAliasMixin, TokenList):
         result = []
         for token in parenthesis.tokens:
             if isinstance(token, IdentifierList):
-                return token.get_identifiers()
+                result.extend(token.get_identifiers())
             elif imt(token, i=(Function, Identifier, TypedLiteral),
                      t=T.Literal):
                 result.append(token)
